@@ -49,6 +49,9 @@ type lifeAction struct {
 
 // life is the lifecycle world shared by C04, C05 and C23.
 type life struct {
+	qLive               map[string]int // message queues alive, by remote peer
+	qMaxLive            map[string]int
+	memLimited          bool
 	prop                string
 	a, c, b             *Node
 	reqs                []*lifeReq
@@ -84,8 +87,24 @@ func (s *life) Build(w *World) {
 	t := w.Tape
 	drawProfile(w)
 	NewFabric(w)
+	// which message queues are alive (two instances for one peer at once is the input class of a recorded finding)
+	s.qLive, s.qMaxLive = map[string]int{}, map[string]int{}
+	w.OnObserve = func(site, detail string, obj any) {
+		name := w.Net.Name(peer.ID(detail))
+		w.mu.Lock()
+		switch site {
+		case "messagequeue.started":
+			s.qLive[name]++
+			if s.qLive[name] > s.qMaxLive[name] {
+				s.qMaxLive[name] = s.qLive[name]
+			}
+		case "messagequeue.exited":
+			s.qLive[name]--
+		}
+		w.mu.Unlock()
+	}
 	// buggify: a random subset of the internal yield sites of the task workers is active
-	for _, site := range []string{"taskqueue.afterPop", "queryexecutor.beforeFinishTask"} {
+	for _, site := range []string{"taskqueue.afterPop", "queryexecutor.beforeFinishTask", "messagequeue.afterRelease"} {
 		if t.Chance(300) {
 			w.Yields[site] = true
 		}
@@ -101,6 +120,19 @@ func (s *life) Build(w *World) {
 	retries := 1 + t.Draw(3)
 	opts := []gsimpl.Option{gsimpl.MessageSendRetries(retries), gsimpl.SendMessageTimeout(time.Duration(1+t.Draw(30)) * time.Second)}
 	bopts := append([]gsimpl.Option{gsimpl.RejectAllRequestsByDefault(), gsimpl.MaxInProgressIncomingRequests(uint64(1 + t.Draw(3)))}, opts...)
+	if t.Chance(250) {
+		// swarm: back-pressure - the responder may hold only a few blocks' worth of unsent data per peer,
+		// so traversals wait for memory and are woken by whatever returns it
+		lim := uint64([]int{800, 1200, 2000}[t.Draw(3)]) // always more than the largest block
+		bopts = append(bopts, gsimpl.MaxMemoryPerPeerResponder(lim), gsimpl.MaxMemoryResponder(2*lim))
+		s.memLimited = true
+		if s.faults && t.Chance(500) {
+			// ... and sends fail for good at the first attempt, while the queue itself survives
+			bopts = append(bopts, gsimpl.MessageSendRetries(1))
+			w.Prof.FaultPm["send"] = 250
+			w.Prof.FaultBudget = 2 + t.Draw(4)
+		}
+	}
 	s.b = NewNode(w, "B", NodeCfg{GateReads: true, Opts: bopts})
 	if s.faults {
 		s.b.Store.ReadFaults = []string{"err"}
@@ -741,6 +773,15 @@ func (s *life) finalC05(w *World) *Violation {
 			return &Violation{Property: "C05", Rule: "R1", Signature: "completed-twice", Detail: fmt.Sprintf("request %s reported completed %d times", lbl, nCompleted)}
 		case nCancelled > 1:
 			return &Violation{Property: "C05", Rule: "R1", Signature: "cancelled-twice", Detail: fmt.Sprintf("request %s reported cancelled %d times", lbl, nCancelled)}
+		case nCompleted >= 1 && completedStatus.IsSuccess() && netErrBefore(b, k.id, k.peer):
+			// a response whose data was (partly) lost on the network cannot also have completed successfully
+			sig := "completed-and-network-error"
+			w.mu.Lock()
+			if s.qMaxLive[k.peer] > 1 {
+				sig += ":overlapping-queues"
+			}
+			w.mu.Unlock()
+			return &Violation{Property: "C05", Rule: "R1", Signature: sig, Detail: fmt.Sprintf("request %s reported failed on the network (%d time(s), the first before its completion) and then completed with status %d", lbl, nNetErr, completedStatus)}
 		case nCompleted == 1 && nCancelled == 1:
 			return &Violation{Property: "C05", Rule: "R1", Signature: "completed-and-cancelled", Detail: fmt.Sprintf("request %s reported both completed (status %d) and cancelled", lbl, completedStatus)}
 		case nCompleted == 0 && nCancelled == 0 && nNetErr == 0:
@@ -866,4 +907,20 @@ func checkPeerStates(n *Node, peers []*Node) *Violation {
 		}
 	}
 	return nil
+}
+
+// netErrBefore: a network error was reported for the response before it was reported completed.
+func netErrBefore(b *Node, id graphsync.RequestID, peerName string) bool {
+	first := 1 << 30
+	for _, e := range b.Completed {
+		if e.Req == id && e.Peer == peerName && e.Step < first {
+			first = e.Step
+		}
+	}
+	for _, e := range b.NetErrs {
+		if e.Req == id && e.Peer == peerName && e.Step < first {
+			return true
+		}
+	}
+	return false
 }
